@@ -13,6 +13,8 @@ pub mod c12;
 pub mod c13;
 pub mod c14;
 pub mod c15;
+pub mod c16;
+pub mod c17;
 pub mod c18;
 
 pub fn all() -> Vec<&'static PropDef> {
@@ -30,6 +32,8 @@ pub fn all() -> Vec<&'static PropDef> {
         &c13::PROP,
         &c14::PROP,
         &c15::PROP,
+        &c16::PROP,
+        &c17::PROP,
         &c18::PROP,
     ]
 }
